@@ -245,6 +245,9 @@ func qRealms() []qRealm {
 		qRealm{tables: [3][]string{{"users"}, {"users"}, {"tags"}}, enums: [3][]string{{"status"}, {"status", "kind"}, {"s1"}}},
 		qRealm{tables: [3][]string{{"status"}, {"tags"}, {"s2"}}, enums: [3][]string{{"status", "s2"}, {"kind"}, {"kind", "users"}}},
 		qRealm{tables: [3][]string{{"tags"}, {"tags"}, {"tags"}}, enums: [3][]string{{"s3", "status"}, {"status"}, {"status", "s1"}}},
+		// pass 3 is not a closure: s2.s1 is qualified by it (s1 is a qualifier), which makes s2 a
+		// qualifier too, but s2.s2 stays `table "s2"` next to `table "s2" "s1"` (found by the thorough tier)
+		qRealm{tables: [3][]string{{"users"}, {"s1", "s2", "tags"}, {"users"}}},
 	)
 	return res
 }
